@@ -23,25 +23,28 @@ Proof.
   intro H. inversion H; subst. cbn. auto.
 Qed.
 
+Lemma row_step_never_panics im vis s e n : snd (fst (row_step im vis s e)) <> RPanicR n.
+Proof.
+  unfold row_step. destruct (next_row s) as [j|] eqn:En.
+  - destruct (row_visible _ _ _ _); cbn; discriminate.
+  - pose proof (finish_decoding_none_ok im vis s En n) as P.
+    destruct (finish_decoding im vis s) as [s' [r|]]; cbn in *; [intro Hc; subst; apply P; reflexivity | discriminate].
+Qed.
+
 Theorem step_never_panics im vis s o n :
   valid im -> snd (fst (step im vis s o)) <> RPanicR n.
 Proof.
-  intros [_ Hf]. destruct o; cbn [step].
+  intros [_ Hf]. destruct o; cbn [step]; try apply row_step_never_panics.
   - (* OFrame *)
     destruct (remaining s =? 0); [cbn; discriminate|].
-    destruct (if flushed s then advance im vis s else (s, None)) as [s1 r1] eqn:E1.
+    destruct (if advancing s then advance im vis s else (s, None)) as [s1 r1] eqn:E1.
     destruct r1 as [r|].
-    + cbn. intro Hc. subst r. destruct (flushed s); [|inversion E1].
+    + cbn. intro Hc. subst r. destruct (advancing s); [|inversion E1].
       pose proof (advance_no_panic im vis s n) as P. rewrite E1 in P. apply P. reflexivity.
     + destruct (take_rows _ _ _ _ _) as [d [j|]]; [cbn; discriminate|].
       set (s2 := mk_rstate _ _ _ None _).
       pose proof (finish_decoding_none_ok im vis s2 eq_refl n) as P.
       destruct (finish_decoding im vis s2) as [s3 [r|]]; cbn in *; [intro Hc; subst; apply P; reflexivity | discriminate].
-  - (* ORow *)
-    destruct (next_row s) as [j|] eqn:En.
-    + destruct (row_visible _ _ _ _); cbn; discriminate.
-    + pose proof (finish_decoding_none_ok im vis s En n) as P.
-      destruct (finish_decoding im vis s) as [s' [r|]]; cbn in *; [intro Hc; subst; apply P; reflexivity | discriminate].
   - (* OFrameInfo *)
     destruct ((if flushed s then remaining s else pred (remaining s)) =? 0); [cbn; discriminate|].
     destruct (flushed s) eqn:Efl.
@@ -66,8 +69,9 @@ Theorem after_finish_everything_is_refused im vis s o :
   let '(s', r, d) := step im vis s o in
   done s' /\ d = [] /\ (r = REndOfImage \/ r = RRowNone).
 Proof.
-  intros (Hf & Hr & Hfl & Hn). destruct o; cbn [step].
+  intros (Hf & Hr & Hfl & Hn). destruct o; cbn [step]; unfold row_step.
   - rewrite Hr. cbn. repeat split; auto.
+  - rewrite Hn. unfold finish_decoding. rewrite Hn, Hfl. repeat split; auto.
   - rewrite Hn. unfold finish_decoding. rewrite Hn, Hfl. repeat split; auto.
   - rewrite Hfl, Hr. cbn. repeat split; auto.
   - rewrite Hf. repeat split; auto.
@@ -83,8 +87,9 @@ Theorem after_last_frame im vis s o :
   remaining s = 0 -> flushed s = true -> next_row s = None -> o <> OFinish ->
   let '(s', r, d) := step im vis s o in s' = s /\ d = [] /\ (r = REndOfImage \/ r = RRowNone).
 Proof.
-  intros Hr Hfl Hn Ho. destruct o; cbn [step]; try congruence.
+  intros Hr Hfl Hn Ho. destruct o; cbn [step]; unfold row_step; try congruence.
   - rewrite Hr. cbn. auto.
+  - rewrite Hn. unfold finish_decoding. rewrite Hn, Hfl. auto.
   - rewrite Hn. unfold finish_decoding. rewrite Hn, Hfl. auto.
   - rewrite Hfl, Hr. cbn. auto.
 Qed.
@@ -119,7 +124,7 @@ Theorem frame_call_delivers_the_remaining_rows im vis s s' r d :
     (* the rows written by the call are consecutive rows j0, j0+1, ... of the frame the reader is on afterwards *)
     d = map (fun i => (cur s', i)) (seq j0 (length d)) /\
     (* a frame in progress continues exactly where the row calls stopped; a fresh frame starts at row 0 *)
-    (flushed s = false -> j0 = pos im s) /\ (flushed s = true -> d <> [] -> j0 = 0) /\
+    (advancing s = false -> j0 = pos im s) /\ (advancing s = true -> d <> [] -> j0 = 0) /\
     (* success means the frame is complete: every row from j0 to the last one was written *)
     (forall kk, r = RFrame kk -> kk = cur s' /\ j0 + length d = nrows im (cur s') /\ next_row s' = None /\ flushed s' = true) /\
     (* running out of input leaves the cursor after the rows written so far *)
@@ -127,7 +132,7 @@ Theorem frame_call_delivers_the_remaining_rows im vis s s' r d :
 Proof.
   intro Hcur. cbn [step]. destruct (remaining s =? 0) eqn:Er.
   { intro H; inversion H; subst. exists (pos im s'). cbn. repeat split; try discriminate; try congruence. }
-  destruct (flushed s) eqn:Efl.
+  destruct (advancing s) eqn:Efl.
   - destruct (advance im vis s) as [s1 [r1|]] eqn:Ea.
     + intro H; inversion H; subst. exists (pos im s). cbn [length seq map]. repeat split; try discriminate; try congruence.
       all: intros; subst; exfalso; revert Ea; unfold advance;
@@ -150,10 +155,10 @@ Proof.
       exists (pos im s). repeat split; try discriminate; try congruence; auto.
       intros _ _. left. cbn [next_row]. f_equal. lia.
     + destruct (take_rows_consecutive _ _ _ _ _ _ _ Et) as [Hd Hl].
-      unfold finish_decoding. cbn [next_row flushed cur]. rewrite Efl.
+      unfold finish_decoding. cbn [next_row flushed cur].
       assert (Hp : (pos im s <= nrows im (cur s))%nat).
       { unfold pos, cursor_ok in *. destruct (next_row s); lia. }
-      destruct (frame_end_visible im vis (cur s)); intro H; inversion H; subst; cbn [cur next_row flushed];
+      destruct (flushed s) eqn:Ef0; [|destruct (frame_end_visible im vis (cur s))]; intro H; inversion H; subst; cbn [cur next_row flushed];
         exists (pos im s); repeat split; try discriminate; try congruence; auto.
       all: try (intros; match goal with Hk : RFrame _ = RFrame _ |- _ => inversion Hk; subst; reflexivity end).
       all: try (intros; lia).
@@ -161,15 +166,20 @@ Proof.
 Qed.
 
 (* a row call hands out exactly the row under the cursor and moves the cursor by one *)
-Theorem row_call_delivers_the_cursor_row im vis s s' k j d :
-  step im vis s ORow = (s', RRow k j, d) ->
+Definition is_row_op (o : op) : Prop := o = ORow \/ o = ORowF.
+Lemma row_op_step im vis s o : is_row_op o -> exists e, step im vis s o = row_step im vis s e.
+Proof. intros [-> | ->]; [exists false | exists true]; reflexivity. Qed.
+
+Theorem row_call_delivers_the_cursor_row im vis s s' k j d o :
+  is_row_op o ->
+  step im vis s o = (s', RRow k j, d) ->
   k = cur s /\ next_row s = Some j /\ d = [(k, j)] /\ cur s' = cur s /\
   next_row s' = (if S j <? nrows im (cur s) then Some (S j) else None).
 Proof.
-  cbn [step]. destruct (next_row s) as [jj|].
-  - destruct (row_visible _ _ _ _); intro H; inversion H; subst. cbn. repeat split; reflexivity.
+  intro Ho. destruct (row_op_step im vis s o Ho) as [e ->]. unfold row_step. destruct (next_row s) as [jj|].
+  - destruct (row_visible im vis (cur s) jj); intro H; inversion H; subst. cbn. repeat split; reflexivity.
   - unfold finish_decoding. destruct (next_row s); [intro H; inversion H|]. destruct (flushed s); [intro H; inversion H|].
-    destruct (frame_end_visible _ _ _); intro H; inversion H.
+    destruct (frame_end_visible im vis (cur s)); intro H; inversion H.
 Qed.
 
 (* ------------------------------------------------------------------ frames in order, complete, then end-of-image (C09) *)
@@ -229,10 +239,10 @@ Proof.
   intros Hv Hk Hd (Hfin & Hrem & Hcase). cbn [step].
   assert (Er : (remaining s =? 0) = false) by (apply Nat.eqb_neq; lia). rewrite Er.
   destruct Hcase as [(-> & Hc & Hfl & Hn) | (H1 & Hc & Hfl & Hn)].
-  - rewrite Hfl, Hn, Hc. rewrite Nat.sub_0_r. rewrite take_all_rows by (auto; lia).
+  - unfold advancing. rewrite Hfl. cbn [andb]. rewrite Hn, Hc. rewrite Nat.sub_0_r. rewrite take_all_rows by (auto; lia).
     unfold finish_decoding. cbn [next_row flushed cur]. rewrite frame_end_visible_total by exact Hk.
     cbn. rewrite ?Hfl. cbn. eexists. split; [reflexivity|]. split; [exact Hfin|]. split; [cbn; lia|]. right. cbn. repeat split; lia.
-  - rewrite Hfl. unfold advance. rewrite Hc. replace (S (k - 1)) with k by lia.
+  - unfold advancing. rewrite Hfl, Hn. cbn [andb]. unfold advance. rewrite Hc. replace (S (k - 1)) with k by lia.
     assert (E1 : (length (rows im) <=? k) = false) by (apply Nat.leb_gt; exact Hk). rewrite E1.
     rewrite frame_start_visible_total by (auto; lia). cbn [negb next_row cur flushed remaining finished].
     rewrite Nat.sub_0_r. rewrite take_all_rows by (auto; lia).
@@ -267,15 +277,24 @@ Qed.
 Theorem cursor_ok_init im : valid im -> (1 <= length (rows im))%nat -> cursor_ok im (reader_init im).
 Proof. intros [Hv _] Hl. unfold cursor_ok, reader_init. cbn. apply Hv. lia. Qed.
 
+Lemma row_step_preserves_cursor_ok im vis s e : cursor_ok im s -> cursor_ok im (fst (fst (row_step im vis s e))).
+Proof.
+  intro Hc. unfold row_step. destruct (next_row s) as [j|] eqn:En.
+  - destruct (row_visible im vis (cur s) j); cbn [fst]; [|unfold cursor_ok; rewrite En; unfold cursor_ok in Hc; rewrite En in Hc; exact Hc].
+    unfold cursor_ok. cbn [next_row cur]. destruct (Nat.ltb_spec (S j) (nrows im (cur s))); [assumption | exact I].
+  - unfold finish_decoding. rewrite En. destruct (flushed s); [cbn; unfold cursor_ok; rewrite En; exact I|].
+    destruct (frame_end_visible im vis (cur s)); cbn; unfold cursor_ok; cbn; [exact I | rewrite En; exact I].
+Qed.
+
 Theorem step_preserves_cursor_ok im vis s o :
   valid im -> cursor_ok im s -> cursor_ok im (fst (fst (step im vis s o))).
 Proof.
-  intros Hv Hc. destruct o; cbn [step].
+  intros Hv Hc. destruct o; cbn [step]; try (apply row_step_preserves_cursor_ok; exact Hc).
   - (* OFrame *)
     destruct (remaining s =? 0); [exact Hc|].
-    destruct (flushed s).
+    destruct (advancing s).
     + destruct (advance im vis s) as [s1 [r1|]] eqn:Ea.
-      * cbn. revert Ea. unfold advance. destruct (_ <=? _); [destruct (all_visible _ _)|destruct (negb _)]; intro Q; inversion Q; subst; exact Hc.
+      * cbn [fst]. revert Ea. unfold advance. destruct (_ <=? _); [destruct (all_visible _ _)|destruct (negb _)]; intro Q; inversion Q; subst; exact Hc.
       * pose proof (advance_cursor_ok _ _ _ _ Hv Ea) as Hc1.
         destruct (take_rows im vis (cur s1) _ _) as [d [j|]] eqn:Et.
         -- cbn. unfold cursor_ok. cbn. destruct (take_rows_consecutive _ _ _ _ _ _ _ Et) as [_ [Hj Hl]].
@@ -287,23 +306,17 @@ Proof.
         unfold cursor_ok in Hc. destruct (next_row s); lia.
       * unfold finish_decoding. cbn [next_row flushed cur]. destruct (flushed s); [cbn; exact I|].
         destruct (frame_end_visible _ _ _); cbn; exact I.
-  - (* ORow *)
-    destruct (next_row s) as [j|] eqn:En.
-    + destruct (row_visible _ _ _ _); cbn [fst]; [|unfold cursor_ok; rewrite En; unfold cursor_ok in Hc; rewrite En in Hc; exact Hc].
-      unfold cursor_ok. cbn [next_row cur]. destruct (Nat.ltb_spec (S j) (nrows im (cur s))); [assumption | exact I].
-    + unfold finish_decoding. rewrite En. destruct (flushed s); [cbn; unfold cursor_ok; rewrite En; exact I|].
-      destruct (frame_end_visible _ _ _); cbn; unfold cursor_ok; cbn; [exact I | rewrite En; exact I].
   - (* OFrameInfo *)
     destruct (_ =? 0); [exact Hc|].
     destruct (flushed s) eqn:Efl.
     + destruct (advance im vis s) as [s2 [r|]] eqn:Ea.
-      * cbn. revert Ea. unfold advance. destruct (_ <=? _); [destruct (all_visible _ _)|destruct (negb _)]; intro Q; inversion Q; subst; exact Hc.
+      * cbn [fst]. revert Ea. unfold advance. destruct (_ <=? _); [destruct (all_visible _ _)|destruct (negb _)]; intro Q; inversion Q; subst; exact Hc.
       * pose proof (advance_cursor_ok _ _ _ _ Hv Ea). destruct (has_fctl im (cur s2)); cbn; assumption.
     + unfold finish_decoding. cbn [next_row flushed cur]. rewrite ?Efl.
       destruct (frame_end_visible _ _ _); [|cbn; exact I].
       set (s1 := mk_rstate _ _ true None _).
       destruct (advance im vis s1) as [s2 [r|]] eqn:Ea.
-      * cbn. revert Ea. unfold advance. destruct (_ <=? _); [destruct (all_visible _ _)|destruct (negb _)]; intro Q; inversion Q; subst; exact I.
+      * cbn [fst]. revert Ea. unfold advance. destruct (_ <=? _); [destruct (all_visible _ _)|destruct (negb _)]; intro Q; inversion Q; subst; exact I.
       * pose proof (advance_cursor_ok _ _ _ _ Hv Ea). destruct (has_fctl im (cur s2)); cbn; assumption.
   - (* OFinish *)
     destruct (finished s); [exact Hc|]. destruct (all_visible _ _); cbn; exact I.
@@ -334,12 +347,12 @@ Qed.
 
 (* the three row-level calls and finish(): an UnexpectedEof leaves the reader exactly as it was (rows) / in the state
    from which repeating finish() gives what a single finish() on the longer input gives *)
-Theorem row_call_eof_changes_nothing im vis s s' d : step im vis s ORow = (s', REofR, d) -> s' = s /\ d = [].
+Theorem row_call_eof_changes_nothing im vis s s' d o : is_row_op o -> step im vis s o = (s', REofR, d) -> s' = s /\ d = [].
 Proof.
-  cbn [step]. destruct (next_row s) as [j|] eqn:En.
-  - destruct (row_visible _ _ _ _); intro H; inversion H; subst; auto.
+  intro Ho. destruct (row_op_step im vis s o Ho) as [e ->]. unfold row_step. destruct (next_row s) as [j|] eqn:En.
+  - destruct (row_visible im vis (cur s) j); intro H; inversion H; subst; auto.
   - unfold finish_decoding. rewrite En. destruct (flushed s); [intro H; inversion H|].
-    destruct (frame_end_visible _ _ _); intro H; inversion H; subst; auto.
+    destruct (frame_end_visible im vis (cur s)); intro H; inversion H; subst; auto.
 Qed.
 
 Theorem finish_is_resumable im v v' s s1 d1 :
@@ -353,24 +366,27 @@ Qed.
 (* next_frame: the rows written before the input ended stay written; repeating the call on a longer input writes the
    rest, and the outcome is the outcome of a single call on the longer input *)
 Theorem frame_call_is_resumable im v v' s s1 d1 :
-  (v <= v')%nat -> flushed s = false ->
+  (v <= v')%nat -> advancing s = false ->
   step im v s OFrame = (s1, REofR, d1) ->
   step im v' s OFrame = (let '(s2, r, d2) := step im v' s1 OFrame in (s2, r, d1 ++ d2)).
 Proof.
   intros Hv Hfl. cbn [step]. destruct (remaining s =? 0) eqn:Er; [discriminate|]. rewrite Hfl.
   fold (pos im s).
   destruct (take_rows im v (cur s) (pos im s) (nrows im (cur s) - pos im s)) as [d [j|]] eqn:Et.
-  - intro H; inversion H; subst. clear H. cbn [step remaining flushed next_row cur]. rewrite Er, Hfl.
+  - intro H; inversion H; subst. clear H. cbn [step remaining flushed next_row cur]. rewrite Er.
+    unfold advancing at 1. cbn [flushed next_row]. rewrite andb_false_r.
     rewrite (take_rows_resume im v v' (cur s) Hv _ _ _ _ Et).
     destruct (take_rows_consecutive _ _ _ _ _ _ _ Et) as [_ [Hj Hl]].
     replace (nrows im (cur s) - pos im s - (j - pos im s)) with (nrows im (cur s) - j) by lia.
     unfold pos. cbn [cur next_row flushed remaining finished].
     destruct (take_rows im v' (cur s) j (nrows im (cur s) - j)) as [d2 [j2|]]; [cbn; reflexivity|].
     unfold finish_decoding. cbn [next_row flushed cur remaining finished].
+    destruct (flushed s); [cbn; reflexivity|].
     destruct (frame_end_visible im v' (cur s)); cbn; reflexivity.
-  - unfold finish_decoding. cbn [next_row flushed cur]. rewrite Hfl.
+  - unfold finish_decoding. cbn [next_row flushed cur]. destruct (flushed s) eqn:Ef; [discriminate|].
     destruct (frame_end_visible im v (cur s)) eqn:Ev; [discriminate|].
-    intro H; inversion H; subst. clear H. cbn [step remaining flushed next_row cur]. rewrite ?Er, ?Hfl.
+    intro H; inversion H; subst. clear H. cbn [step remaining flushed next_row cur]. rewrite ?Er.
+    unfold advancing at 1. cbn [flushed next_row andb].
     (* every row was already visible under v, hence under v' *)
     assert (Et' : take_rows im v' (cur s) (pos im s) (nrows im (cur s) - pos im s) = (d1, None)).
     { clear -Et Hv. revert Et. generalize (nrows im (cur s) - pos im s) as n. generalize (pos im s) as j. intros j n. revert j d1.
@@ -379,6 +395,30 @@ Proof.
       unfold row_visible in *. rewrite (ltb_mono _ v v' Hv E). destruct (take_rows im v (cur s) (S j) n) as [dd [jj|]] eqn:E1; [cbn; intro Q; discriminate Q|].
       intro Q; inversion Q; subst. rewrite (IH _ _ E1). reflexivity. }
     rewrite Et'. rewrite Nat.sub_diag. cbn [take_rows].
-    unfold finish_decoding. cbn [next_row flushed cur remaining finished]. rewrite ?Hfl.
+    unfold finish_decoding. cbn [next_row flushed cur remaining finished]. rewrite ?Ef.
     destruct (frame_end_visible im v' (cur s)); cbn; rewrite app_nil_r; reflexivity.
 Qed.
+
+(* ------------------------------------------------------------------ the repaired defect: a frame call in mid-frame stays on its frame *)
+Theorem frame_call_in_mid_frame_stays_on_the_frame im vis s s' r d j :
+  next_row s = Some j ->
+  step im vis s OFrame = (s', r, d) ->
+  cur s' = cur s /\ (forall kk, r = RFrame kk -> kk = cur s).
+Proof.
+  intros Hn. cbn [step]. destruct (remaining s =? 0); [intro H; inversion H; subst; split; [reflexivity | discriminate]|].
+  assert (Ea : advancing s = false) by (unfold advancing; rewrite Hn; apply andb_false_r). rewrite Ea.
+  destruct (take_rows im vis (cur s) _ _) as [dd [jj|]].
+  - intro H; inversion H; subst. split; [reflexivity | discriminate].
+  - unfold finish_decoding. cbn [next_row flushed cur].
+    destruct (flushed s); [|destruct (frame_end_visible im vis (cur s))]; intro H; inversion H; subst; cbn [cur];
+      (split; [reflexivity | intros kk Hk; inversion Hk; reflexivity || discriminate]).
+Qed.
+
+(* non-vacuity of the early-flush state: 2 frames of 5 rows; 3 row calls, the third one flushing the sequence early; the
+   frame call then delivers rows 3 and 4 of frame 0 (before the repair the code delivered frame 1 here) *)
+Example early_flush_then_frame_call :
+  let im := mk_image [5; 5] 2 (fun _ => true) in
+  snd (run im (reader_init im) [(ORow, 10); (ORow, 10); (ORowF, 10); (OFrame, 10); (OFrame, 10)]) =
+  [(RRow 0 0, [(0, 0)]); (RRow 0 1, [(0, 1)]); (RRow 0 2, [(0, 2)]); (RFrame 0, [(0, 3); (0, 4)]);
+   (RFrame 1, [(1, 0); (1, 1); (1, 2); (1, 3); (1, 4)])].
+Proof. vm_compute. reflexivity. Qed.
